@@ -223,6 +223,24 @@ func (m *C13) OnStep(gh explore.Ghost, st *explore.Step) []V {
 					}
 				}
 			}
+			// "cancelling exactly the bridged amounts": the owner's tradable balance drops by the bridged amounts
+			// and nothing else of any balance row moves (retired and escrowed amounts in particular)
+			for _, b := range pre.Balances {
+				nb := post.Balance(b.Address, b.BatchKey)
+				if nb == nil {
+					out = append(out, V{Kind: "C13/bridge-deleted-a-balance-row", Detail: st.Act.Label})
+					continue
+				}
+				w := ref.Zero()
+				if addrStr(b.Address) == msg.Owner && want[b.BatchKey] != nil {
+					w = want[b.BatchKey]
+				}
+				if ref.Sub(rat(b.TradableAmount), rat(nb.TradableAmount)).Cmp(w) != 0 || rat(b.RetiredAmount).Cmp(rat(nb.RetiredAmount)) != 0 || rat(b.EscrowedAmount).Cmp(rat(nb.EscrowedAmount)) != 0 {
+					out = append(out, V{Kind: "C13/bridge-balance-change-is-not-exactly-the-bridged-amount",
+						Detail: fmt.Sprintf("%s: %s in %s t/r/e %s/%s/%s -> %s/%s/%s, bridged %s", st.Act.Label, addrStr(b.Address), denomOf(pre, b.BatchKey),
+							b.TradableAmount, b.RetiredAmount, b.EscrowedAmount, nb.TradableAmount, nb.RetiredAmount, nb.EscrowedAmount, w.FloatString(6))})
+				}
+			}
 			for _, sp := range pre.Supplies {
 				w := want[sp.BatchKey]
 				if w == nil {
